@@ -16,7 +16,8 @@ ANCHORED = ["_AdversarialFairness.fit", "_AdversarialFairness.partial_fit", "_Ad
             "FloatTransformer.inverse_transform", "PytorchEngine.train_step"]
 RULE = ("random cases: n in 1..25 rows whose first feature column is the row id, batch_size in {-1, 1..n+3}, epochs in 1..3 (or -1 "
         "with max_iter), max_iter in {-1, 1..8} (set as attribute), 1..2 callbacks with a stop step in {none, 1..6}, SGD or Adam, "
-        "classifier (binary/multiclass, int and string labels) and regressor, PyTorch backend, shuffle=False. Monitors: a recording "
+        "classifier (binary/multiclass, int and string labels) and regressor, PyTorch backend, shuffle=False; in a quarter of the cases a "
+        "second, warm-started fit() follows on the same estimator and its trace is checked as well. Monitors: a recording "
         "predictor module logs the row ids of every training batch, recording callbacks log (step, n_iter_); the trace is checked "
         "offline against the documented schedule (consecutive slices, step count, callback numbering, no callback after the step that "
         "exhausts max_iter, stop at the first True). A second identically configured estimator with identical initial modules is "
@@ -137,6 +138,8 @@ def run_case(cls, key, seed, ctx):
     only_one_class = classes is not None and len(set(y)) < 2
     Est = AdversarialFairnessRegressor if kind == "regression" else AdversarialFairnessClassifier
 
+    warm2 = bool(rng.random() < 0.25)   # a second, warm-started fit() on the same estimator: the schedule starts afresh
+
     def make(est_pred, est_adv, callbacks):
         if opt == "sgd":
             po = lambda m: torch.optim.SGD(m.parameters(), lr=lr)  # noqa: E731
@@ -144,17 +147,25 @@ def run_case(cls, key, seed, ctx):
         else:
             po = ao = "Adam"
         e = Est(backend="torch", predictor_model=est_pred, adversary_model=est_adv, predictor_optimizer=po, adversary_optimizer=ao, learning_rate=lr,
-                epochs=epochs, batch_size=b, shuffle=False, callbacks=callbacks, random_state=7, alpha=0.5)
+                epochs=epochs, batch_size=b, shuffle=False, callbacks=callbacks, random_state=7, alpha=0.5, warm_start=warm2)
         e.max_iter = max_iter
         return e
     cbs = [RecCallback(stop_at if j == stopper else None) for j in range(ncb)]
     est = make(pred, adv, cbs if ncb != 1 else (cbs[0] if rng.random() < 0.5 else cbs))
     wit = {"kind": kind, "n": n, "batch_size": b, "epochs": epochs, "max_iter": max_iter, "stop_at": stop_at if ncb else None, "callbacks": ncb,
-           "stopper": stopper, "optimizer": opt, "labels": y, "sensitive": a.tolist()}
+           "stopper": stopper, "optimizer": opt, "labels": y, "sensitive": a.tolist(), "second_warm_started_fit": warm2}
     if only_one_class:
         ctx.ev("skipped_single_class")
         return
     est.fit(X, y, sensitive_features=a)
+    n_fits = 1
+    if warm2:
+        first_log = list(pred.log)
+        pred.log = []
+        for cb in cbs:
+            cb.calls = []
+        est.fit(X, y, sensitive_features=a)
+        n_fits = 2
     # ---- expected schedule from the documented rule
     total_epochs = epochs if epochs != -1 else math.ceil(max_iter / batches)
     planned = []
@@ -179,7 +190,9 @@ def run_case(cls, key, seed, ctx):
         ctx.check([c[0] for c in cb.calls] == cb_expected, "callback_invocations_differ_from_documented_trace", callback=j,
                   observed=[c[0] for c in cb.calls][:16], expected=cb_expected[:16], wit=wit)
         ctx.check(all(c[0] == c[1] for c in cb.calls), "callback_step_differs_from_n_iter_at_call_time", calls=cb.calls[:8], wit=wit)
-    ctx.mark([Est.__name__, kind, n, b, epochs, max_iter, stop_at if ncb else None, ncb, opt], len(expected) >= 2, sample=wit)
+    if warm2:
+        ctx.check(first_log == expected, "training_batches_differ_from_documented_schedule:first_fit", observed=first_log[:12], expected=expected[:12], wit=wit)
+    ctx.mark([Est.__name__, kind, n, b, epochs, max_iter, stop_at if ncb else None, ncb, opt, warm2], len(expected) >= 2, sample=wit)
     # ---- the same slices through partial_fit on an identically configured estimator
     can_partial = all(len(s) > 0 for s in expected)
     if kind.startswith("binary") and (first < 2):
@@ -191,7 +204,7 @@ def run_case(cls, key, seed, ctx):
     if can_partial:
         est2 = make(pred2, adv2, None)
         ya, aa = np.asarray(y, dtype=object if isinstance(y[0], str) else None), a
-        for sl in expected:
+        for sl in expected * n_fits:
             est2.partial_fit(X[sl], ya[sl], sensitive_features=aa[sl])
         ctx.ev("partial_fit_histories_compared")
         tol = 0.0 if opt == "sgd" else 1e-6
@@ -200,7 +213,7 @@ def run_case(cls, key, seed, ctx):
             diff = float((p1 - p2).abs().max()) if p1.numel() else 0.0
             ctx.check(diff <= tol + 1e-7 * float(p1.abs().max()), "model_after_fit_differs_from_equivalent_partial_fit_sequence", tensor=n1, max_abs_diff=diff,
                       steps=len(expected), wit=wit)
-        ctx.check(pred2.log == expected, "partial_fit_batches_differ_from_the_slices_passed", wit=wit)
+        ctx.check(pred2.log == expected * n_fits, "partial_fit_batches_differ_from_the_slices_passed", wit=wit)
     else:
         ctx.ev("partial_fit_route_not_applicable")
     # ---- predict stays in label space and follows the threshold / arg-max / raw rule
